@@ -645,6 +645,23 @@ func TestGeneratedModel(t *testing.T) {
 			if !reflect.DeepEqual(a, into) {
 				t.Fatalf("VERIF-GEN table %s: CloneInto differs", table)
 			}
+			if !reflect.DeepEqual(a, before) {
+				t.Fatalf("VERIF-GEN table %s: CloneInto modified its argument", table)
+			}
+			vi := reflect.ValueOf(into).Elem()
+			for i := 0; i < va.NumField(); i++ {
+				x, y := va.Field(i), vi.Field(i)
+				switch x.Kind() {
+				case reflect.Ptr, reflect.Map:
+					if !x.IsNil() && x.Pointer() == y.Pointer() {
+						t.Fatalf("VERIF-GEN table %s: the copy made by CloneInto shares memory of field %s", table, va.Type().Field(i).Name)
+					}
+				case reflect.Slice:
+					if x.Len() > 0 && x.Pointer() == y.Pointer() {
+						t.Fatalf("VERIF-GEN table %s: the copy made by CloneInto shares memory of field %s", table, va.Type().Field(i).Name)
+					}
+				}
+			}
 			// Equal agrees with the generic comparison on pairs, and notices any single-field change
 			b := fillModel(typ, seed+1)
 			if model.Equal(a, b) != reflect.DeepEqual(a, b) || model.Equal(b, a) != reflect.DeepEqual(a, b) {
